@@ -7,16 +7,34 @@ extern char *snoopy_filterregistry_names[];
 extern int (*snoopy_filterregistry_ptrs[])(const char *);
 extern char *snoopy_outputregistry_names[];
 extern int (*snoopy_outputregistry_ptrs[])(const char *, const char *);
+int snoopy_datasourceregistry_getIdFromName(const char *);
+int snoopy_filterregistry_getIdFromName(const char *);
+int snoopy_outputregistry_getIdFromName(const char *);
+int snoopy_datasourceregistry_doesNameExist(const char *);
+int snoopy_filterregistry_doesNameExist(const char *);
+int snoopy_outputregistry_doesNameExist(const char *);
 int snoopy_datasourceregistry_getCount(void);
 int snoopy_filterregistry_getCount(void);
 int snoopy_outputregistry_getCount(void);
-int main(void) {
+int main(int argc, char **argv) {
     for (int i = 0; strcmp(snoopy_datasourceregistry_names[i], "") != 0; i++)
         printf("datasource %d %s %p\n", i, snoopy_datasourceregistry_names[i], (void *) snoopy_datasourceregistry_ptrs[i]);
     for (int i = 0; strcmp(snoopy_filterregistry_names[i], "") != 0; i++)
         printf("filter %d %s %p\n", i, snoopy_filterregistry_names[i], (void *) snoopy_filterregistry_ptrs[i]);
     for (int i = 0; strcmp(snoopy_outputregistry_names[i], "") != 0; i++)
         printf("output %d %s %p\n", i, snoopy_outputregistry_names[i], (void *) snoopy_outputregistry_ptrs[i]);
+    /* candidate names (one per line in the file given as argv[1]; an empty line is the empty name) through the lookup functions */
+    if (argc > 1) {
+        FILE *f = fopen(argv[1], "r");
+        char line[512];
+        while (f && fgets(line, sizeof line, f)) {
+            line[strcspn(line, "\n")] = 0;
+            printf("lookup datasource [%s] %d %d\n", line, snoopy_datasourceregistry_getIdFromName(line), snoopy_datasourceregistry_doesNameExist(line));
+            printf("lookup filter [%s] %d %d\n", line, snoopy_filterregistry_getIdFromName(line), snoopy_filterregistry_doesNameExist(line));
+            printf("lookup output [%s] %d %d\n", line, snoopy_outputregistry_getIdFromName(line), snoopy_outputregistry_doesNameExist(line));
+        }
+        if (f) fclose(f);
+    }
     printf("counts %d %d %d\n", snoopy_datasourceregistry_getCount(), snoopy_filterregistry_getCount(), snoopy_outputregistry_getCount());
     return 0;
 }
